@@ -146,7 +146,10 @@ class Executor(ExprMixin, CallMixin, ContractMixin, StmtMixin):
             env["yielded"] = y
             env["result"] = y
         else:
-            env["result"] = self.coerce(result, c.result, st)
+            if c.result.kind == "val" and result.kind in ("dict", "set", "seq"):
+                env["result"] = result  # keep the structure visible to the postconditions
+            else:
+                env["result"] = self.coerce(result, c.result, st)
         # final values of locals are visible to postconditions as `final_<name>` (ghost access)
         return env
 
